@@ -36,6 +36,13 @@ type fn struct {
 	decl *ast.FuncDecl
 }
 
+type condGuard struct {
+	name string
+	re   *regexp.Regexp
+}
+
+var condGuards []condGuard
+
 var (
 	fset       = token.NewFileSet()
 	funcs      = map[string]*fn{}
@@ -406,14 +413,32 @@ func (t *tr) stmt(s ast.Stmt) *node {
 		if g == "" {
 			g = guardCall(x.Cond)
 		}
-		if g != "" && x.Else == nil {
+		if g != "" && (x.Else == nil || terminates(x.Body.List)) {
 			if fail, shape, ok := t.guardBody(x); ok {
 				pre := seq(t.callsExceptGuard(x.Init), t.callsExceptGuard(x.Cond))
 				hdr := ""
 				if x.Init != nil {
 					hdr = "init; "
 				}
-				return seq(pre, &node{k: "GuardIf", s: g, c: hdr + "if " + shapeOf(x.Cond, shape), a: fail})
+				gn := &node{k: "GuardIf", s: g, c: hdr + "if " + shapeOf(x.Cond, shape), a: fail}
+				if x.Else != nil {
+					// if G() { return } else <S>: S runs only when the check let the request through
+					return seq(pre, gn, t.stmt(x.Else))
+				}
+				return seq(pre, gn)
+			}
+		}
+		// condition-text guards (e.g. `if s.info.Mode != mode.ReadWrite { return }`)
+		if x.Init == nil && terminates(x.Body.List) {
+			ct := exprStr(x.Cond)
+			for _, cg := range condGuards {
+				if cg.re.MatchString(ct) {
+					gn := &node{k: "GuardIf", s: cg.name, c: "if " + ct, a: t.block(x.Body.List)}
+					if x.Else != nil {
+						return seq(gn, t.stmt(x.Else))
+					}
+					return gn
+				}
 			}
 		}
 		if varGuardRe != nil && x.Init == nil && x.Else == nil && terminates(x.Body.List) {
@@ -514,14 +539,19 @@ func recvInfo(d *ast.FuncDecl) (id, typ string) {
 }
 
 func main() {
-	var dirs, ifaces multi
+	var dirs, ifaces, cgs multi
 	var out, guards, varguards string
 	flag.Var(&dirs, "dir", "package directory (repeatable); optional `alias=` prefix")
 	flag.Var(&ifaces, "iface", "file.go:InterfaceName whose method names are emitted (repeatable)")
 	flag.StringVar(&out, "out", "", "output .v file")
 	flag.StringVar(&guards, "guards", "", "regexp matching guard callee expressions")
 	flag.StringVar(&varguards, "varguards", "", "regexp matching boolean variables used as `if !v { return }` guards")
+	flag.Var(&cgs, "condguard", "name=regexp: an `if` whose condition text matches and whose body terminates is a check named name (repeatable)")
 	flag.Parse()
+	for _, c := range cgs {
+		i := strings.Index(c, "=")
+		condGuards = append(condGuards, condGuard{c[:i], regexp.MustCompile(c[i+1:])})
+	}
 	if varguards != "" {
 		varGuardRe = regexp.MustCompile("^(" + varguards + ")$")
 	}
